@@ -16,9 +16,13 @@ class Site:
 
 
 def _line_starts(text: str):
+    """start offsets of the lines; line endings are \\n, \\r\\n or a lone \\r (as for python's tokenizer)"""
     starts = [0]
+    n = len(text)
     for i, c in enumerate(text):
         if c == "\n":
+            starts.append(i + 1)
+        elif c == "\r" and not (i + 1 < n and text[i + 1] == "\n"):
             starts.append(i + 1)
     return starts
 
@@ -26,9 +30,7 @@ def _line_starts(text: str):
 def _offset(text, starts, lineno, col_bytes):
     """ast columns are UTF-8 byte offsets into the line"""
     line_start = starts[lineno - 1]
-    line_end = text.find("\n", line_start)
-    if line_end == -1:
-        line_end = len(text)
+    line_end = starts[lineno] if lineno < len(starts) else len(text)
     line = text[line_start:line_end]
     b = line.encode("utf-8", "surrogatepass")[:col_bytes]
     return line_start + len(b.decode("utf-8", "surrogatepass"))
